@@ -10,7 +10,6 @@ from six import iteritems
 
 from collections import OrderedDict
 
-from math import log
 
 
 class BitField(object):
@@ -927,7 +926,8 @@ class BitField(object):
         length = field.length
         if length is None:
             # Assign lengths based on values
-            length = int(log(field.max_value, 2)) + 1
+            # NB: Exact for arbitrarily large values (unlike a floating-point log)
+            length = int(field.max_value).bit_length()
 
         start_at = field.start_at
         if start_at is None:
